@@ -129,6 +129,9 @@ impl<'xml> Deserializer<'xml> {
                     if memchr::memmem::find(&x, b"]]>").is_some() {
                         return Err(DeError::InvalidContent);
                     }
+                    // every piece of text has to be well-formed by itself: once pieces are joined,
+                    // `a&<![CDATA[amp;]]>` would read as `a&amp;`
+                    x.unescape().map_err(invalid_xml)?;
                     DeEvent::Text(normalize_line_ends(x)?)
                 }
                 Event::Eof => DeEvent::Eof,
